@@ -30,6 +30,28 @@ class EmptyLenVertex(Vertex):
         return 0
 
 
+class EqVertex(Vertex):
+    """
+    Value equality: every EqVertex equals every other (and hashes alike).  Only
+    used where the statement speaks of identity ("the opposite end") and the
+    graph is built by constructors alone (C04/C09); the structure API's
+    `in`-on-list idiom makes no promise for such classes.
+    """
+
+    def __eq__(self, other):
+        return isinstance(other, EqVertex)
+
+    def __hash__(self):
+        return 7
+
+
+class CountedUniverse(Universe):
+    """A universe that is falsy while empty (defines __len__)."""
+
+    def __len__(self):
+        return len(self.vertices)
+
+
 class SubDirected(DirectedEdge):
     pass
 
@@ -81,6 +103,19 @@ class UnhashableFilter:
 
     def __init__(self, fn):
         self.fn = fn
+
+    def __call__(self, *a):
+        return self.fn(*a)
+
+
+class FalsyFilter:
+    """A callable filter object whose truth value is False (e.g. an empty allow-list)."""
+
+    def __init__(self, fn):
+        self.fn = fn
+
+    def __len__(self):
+        return 0
 
     def __call__(self, *a):
         return self.fn(*a)
